@@ -140,6 +140,10 @@ var vpC20Helpers = []vpHelper{
 	{"ToOrderedCollection", func(x Item, c string) { p, _ := ToOrderedCollection(x); vpNilPtrCheck(c, p == nil) }},
 	{"ToOrderedCollectionPage", func(x Item, c string) { p, _ := ToOrderedCollectionPage(x); vpNilPtrCheck(c, p == nil) }},
 	{"ToItemCollection", func(x Item, c string) { p, _ := ToItemCollection(x); vpNilPtrCheck(c, p == nil || len(*p) == 0) }},
+	{"GobEncode", func(x Item, c string) {
+		b, err := GobEncode(x)
+		vpAssert("gob-nothing/"+c, err != nil || len(b) == 0)
+	}},
 	{"ToIRIs", func(x Item, c string) { p, _ := ToIRIs(x); vpNilPtrCheck(c, p == nil || len(*p) == 0) }},
 	{"ToLink", func(x Item, c string) { p, _ := ToLink(x); vpNilPtrCheck(c, p == nil) }},
 	{"ToPlace", func(x Item, c string) { p, _ := ToPlace(x); vpNilPtrCheck(c, p == nil) }},
@@ -252,7 +256,7 @@ var vpC20Indirect = map[string]string{
 	"(OrderedCollection).Contains": "via (*OrderedCollection).Append entry", "(OrderedCollectionPage).Contains": "via (*OrderedCollectionPage).Append entry",
 	"(Collection).ItemsMatch": "via Contains", "(CollectionPage).ItemsMatch": "via Contains", "(ItemCollection).ItemsMatch": "via Contains",
 	"(OrderedCollection).ItemsMatch": "via Contains", "(OrderedCollectionPage).ItemsMatch": "via Contains", "(IRI).ItemsMatch": "IRI matching, not an item helper",
-	"JSONWriteIRIProp": "IRI writer", "MarshalJSON": "encoder entry (C20 encoders harness)", "GobEncode": "encoder entry (C20 encoders harness)",
+	"JSONWriteIRIProp": "IRI writer", "MarshalJSON": "encoder entry (C20 encoders harness)", "GobEncode": "exercised: top, member and property entries",
 }
 
 // every exported function of the current tree that takes an item is either exercised or accounted for
@@ -294,7 +298,19 @@ func vpH_C20_member() {
 	col := ItemCollection{IRI("https://h.ex/a"), x, &Object{ID: "https://h.ex/b", Type: NoteType}}
 	var what string
 	panicked := false
-	switch vpChoice(21) {
+	switch vpChoice(25) {
+	case 21:
+		what = "GobEncode-list"
+		panicked = vpMayPanic(func() { _, _ = GobEncode(col) })
+	case 22:
+		what = "ToIRIs-of-pointer"
+		panicked = vpMayPanic(func() { _, _ = ToIRIs(&col) })
+	case 23:
+		what = "ToIRIs-of-value"
+		panicked = vpMayPanic(func() { _, _ = ToIRIs(col) })
+	case 24:
+		what = "ItemCollection.Recipients"
+		panicked = vpMayPanic(func() { _ = col.Recipients() })
 	case 8:
 		what = "OnActor"
 		panicked = vpMayPanic(func() { _ = OnActor(col, func(p *Actor) error { return nil }) })
@@ -371,7 +387,13 @@ func vpH_C20_property() {
 	ob := &Object{ID: "https://h.ex/o", Type: NoteType, Icon: x, AttributedTo: x, Replies: x}
 	var what string
 	panicked := false
-	switch vpChoice(8) {
+	switch vpChoice(10) {
+	case 8:
+		what = "GobEncode(activity)"
+		panicked = vpMayPanic(func() { _, _ = GobEncode(act) })
+	case 9:
+		what = "GobEncode(object)"
+		panicked = vpMayPanic(func() { _, _ = GobEncode(ob) })
 	case 0:
 		what = "FlattenProperties(activity)"
 		panicked = vpMayPanic(func() { _ = FlattenProperties(act) })
